@@ -635,4 +635,4 @@ def rule_d4(ctx):
 
 
 def run(ctx):
-    return [rule_d1(ctx), rule_d3(ctx), rule_d4(ctx)]
+    return ctx.run_rules([rule_d1, rule_d3, rule_d4])
